@@ -16,8 +16,9 @@ class VStyle(gen.Style):
     """canonical everywhere except occurrence k of token class cls (alternative number alt);
     with cls=None just counts occurrences and their syntactic contexts; with rnd set, flips at random"""
     ALTS = {
-        "neg": ["NOT ", "!"],
-        "opnot": ["!", "NOT "],
+        "neg": ["NOT ", "!", "not   ", "NOT\t"],
+        "opnot": ["!", "NOT ", "not  ", "not\t"],
+        "sp": ["  ", "\t", "    "],
         "or": [" OR ", " |OR| ", "\n        or ", " or\n        "],
         "assign": [":="],
         "quote": ["'"],
@@ -111,6 +112,10 @@ class VStyle(gen.Style):
     def listsep(self):
         a = self._hit("listsep")
         return self.ALTS["listsep"][a] if a is not None else ", "
+
+    def sp(self):
+        a = self._hit("sp")
+        return self.ALTS["sp"][a] if a is not None else " "
 
     def lbr(self):
         a = self._hit("lbr")
